@@ -2038,6 +2038,59 @@ def fam_builder(rng):
     return Case("builder %d %s" % (initial, " ".join(cmds)), check, {"value": vals})
 
 
+def fam_builder_append(rng):
+    """C14: ArrayBuilder.append(array, at) appends the element array[at] (a negative `at` counts from the end of THAT
+    array, an `at` outside it raises), extend(array) appends every element in order; mixed with values appended one by
+    one the result reads as all of them in order"""
+    T = gen_pure(rng, rng.randint(0, 2), optleaf=0.2, optlist=0.1)
+    vals = [L.gen_value(rng, T) for _ in range(L.toplen(rng, 1, 6))]
+    if not vals:
+        return None
+    lay = L.Enc(rng).encode(vals, T)
+    tok = lay.tokens()
+    n = len(vals)
+    cmds, ref, bad = [], [], False
+    for _ in range(rng.randint(0, 3)):       # values appended one by one first: the builder's length differs from the array's
+        if rng.random() < 0.5:
+            v = rng.randint(-5, 9)
+            cmds.append("int %d" % v)
+            ref.append(v)
+    for _ in range(rng.randint(1, 5)):
+        k = rng.random()
+        if k < 0.7:
+            at = rng.randint(-n, n - 1)
+            if rng.random() < 0.08:
+                at = rng.choice([n, n + 1, -n - 1, -n - 3])
+                bad = True
+            cmds.append("append %d %s" % (at, tok))
+            if not bad:
+                ref.append(vals[at])
+        elif k < 0.85:
+            cmds.append("extend %s" % tok)
+            ref.extend(vals)
+        else:
+            cmds.append("null")
+            ref.append(None)
+        if bad:
+            break
+    initial = rng.choice([1, 2, 8, 1024])
+
+    def check(r):
+        if bad:
+            if r.status == "EXC":
+                return None
+            return ("value", "ArrayBuilder.append with an index outside the array of %d elements did not raise: %s" % (n, r))
+        if r.status != "OK":
+            return ("value", "ArrayBuilder append/extend from %r: library %s (%s %s)" % (vals, r.status, r.exc or "", r.msg[:200]))
+        _snaps, final, length, ferr = r.value
+        if ferr != "":
+            return ("validity", "the snapshot after append/extend from %r fails the validity check" % (vals,))
+        if length != len(ref) or not loose(final, ref):
+            return ("value", "ArrayBuilder `%s` from the array %r reads %r, the appended elements are %r" % (" ".join(c.split(" " + tok)[0] for c in cmds), vals, final, ref))
+        return None
+    return Case("builder %d %s" % (initial, " ".join(cmds)), check, {"value": vals})
+
+
 def fam_builder_malformed(rng):
     """C14: a malformed call sequence (unbalanced end, field outside a record, index outside a tuple) raises an error"""
     good = []
@@ -2461,6 +2514,7 @@ FAMILIES = {
     "forth": (fam_forth, ["C19"]),
     "builder": (fam_builder, ["C14"]),
     "builder_malformed": (fam_builder_malformed, ["C14"]),
+    "builder_append": (fam_builder_append, ["C14"]),
     "valid_reject": (fam_valid_reject, ["C11"]),
     "invalid_nocrash": (fam_invalid_nocrash, ["C12"]),
 }
